@@ -158,6 +158,21 @@ func gen2(t *rapid.T) *scen.Case {
 	if rapid.IntRange(0, 4).Draw(t, "corrupt") == 0 {
 		c.CorruptVol = rapid.IntRange(1, 4).Draw(t, "cv")
 	}
+	if rapid.IntRange(0, 5).Draw(t, "sibling") == 0 {
+		// recovery files of a sibling set with the same set ID: Repair reconstructs foreign bytes and must refuse to write them
+		c.SiblingVols = true
+		c.CorruptVol = 0
+		c.DelVolumes = nil
+		if S > 2048 {
+			c.Slice = 256
+			S = 256
+		}
+		c.Files[0].Size = 16384 + rapid.IntRange(1, 12*S).Draw(t, "tail")
+		c.Files[0].Kind = "random"
+		c.DoubleCheck = rapid.IntRange(0, 3).Draw(t, "dc2") > 0
+		c.NRec = rapid.IntRange(2, 8).Draw(t, "nrec2")
+		c.Damage = []scen.Damage{{Op: "overwrite", File: 0, Off: 16384 + rapid.IntRange(0, c.Files[0].Size-16385).Draw(t, "off"), Len: rapid.IntRange(1, S).Draw(t, "len"), Seed: rapid.Uint64Range(0, 999).Draw(t, "ds")}}
+	}
 	return c
 }
 
@@ -195,6 +210,9 @@ func TestCheck(t *testing.T) {
 			}
 			if c.P2.CorruptVol > 0 {
 				rec.Class("corrupt-volume")
+			}
+			if c.P2.SiblingVols {
+				rec.Class("sibling-set-volumes(same set id)")
 			}
 		} else {
 			rec.Class("par1")
